@@ -22,6 +22,14 @@ CHECKS["C09"] = dict(
     technique="bounded symbolic execution of the real analyses with contract stubs + z3 equality obligations vs a reference model; replay on real code",
     ref="5/C09")
 
+CHECKS["C08"] = dict(
+    text="Every analysis (derivative families, aero_center, distributions, MAC, reference geometry, the three trims with and without set-state) runs symbolically with "
+         "stubbed solve; z3 decides that the complete physical state the next solve depends on (aircraft state, flaps, cached Earth-frame arrays, sampled atmosphere) is "
+         "unchanged, or equals the returned/reported state for set-state variants, with other controls preserved and the solved flag consistent. Trim loops unrolled twice.",
+    note="LLsolve/AeroADT/linsolve stubs; unit quaternion away from gimbal lock; uniform wind; nothing claimed after MaxIterationError; exports outside.",
+    technique="bounded symbolic execution of the real analyses with contract stubs + z3 pre/post state equality obligations; replay on real code",
+    ref="5/C08")
+
 NOT_APPLICABLE = {
     "C18": "classical lifting-line limits: a convergence statement about the N>=20 discrete solution (value and rate under grid refinement); no bounded SMT encoding of the 40x40 transcendental system is within reach and the small N the engine handles is where the claim is not expected to hold",
 }
